@@ -98,7 +98,8 @@ class Workload:
             body = b"echo:%b:tr%d:n%d:%b:" % (tok, req.tr, req.ordinal, origin.name.encode()) + (b"%x" % zlib.crc32(tok)) * (size // 8)
             mode = rr.choice(SERVER_MODES_H1) if (modes and req.proto == "h1") else "keepalive"
             delay = base_delay * rr.choice([0, 1, 1, 3])
-            hs = [(b"X-Echo", tok), (b"X-Mode", mode.encode())]
+            seen = [v for k, v in getattr(req, "h2_headers", None) or [] if k == b":authority"] or req.header(b"host")
+            hs = [(b"X-Echo", tok), (b"X-Mode", mode.encode()), (b"X-Host-Seen", b",".join(seen))]
             if req.proto != "h1":
                 return Resp(200, b"OK", hs, body, delay=delay)
             if mode == "chunked":
@@ -200,6 +201,10 @@ class Workload:
         hdrs = [("X-Token", tok)]
         ext = {}
         to = {}
+        vh = self.vhost(q)
+        if vh is not None:
+            # a virtual host: same connection key (URL origin), another Host header
+            hdrs.insert(0, ("Host", vh))
         ptc = self.spec.get("pool_timeout_callers")
         if self.spec.get("pool_timeout") is not None and (ptc is None or int(tok[1:].split("r")[0]) in ptc):
             to["pool"] = self.spec["pool_timeout"]
@@ -212,6 +217,7 @@ class Workload:
         if to:
             ext["timeout"] = to
         rec = {"token": tok, "beh": beh, "origin": q["origin"], "t0": self.net.now(), "pool_timeout": rec_pool_timeout}
+        rec["host_wanted"] = vh or f"o{q['origin']}.test"
         self.records.append(rec)
 
         async def full(method="GET", content=None):
@@ -340,6 +346,12 @@ class Workload:
             out.extend(o.by_token.get(token.encode(), []))
         return out
 
+    def vhost(self, q):
+        if not self.spec.get("vhosts"):
+            return None
+        k = zlib.crc32(q["token"].encode()) % 4
+        return None if k == 0 else f"v{k}.o{q['origin']}.test"
+
     def echo_violations(self):
         """C01(a): every response a caller received is the one sent for its own token."""
         bad = []
@@ -358,6 +370,12 @@ class Workload:
             if not truths:
                 bad.append(("response-without-request-at-origin", rec, "no ground truth"))
                 continue
+            if self.spec.get("vhosts") and rec.get("host_wanted") is not None:
+                seen = [v for k, v in got["headers"] if k.lower() == b"x-host-seen"]
+                if seen != [rec["host_wanted"].encode()]:
+                    bad.append(("answered-by-another-virtual-host", rec, f"request for Host {rec['host_wanted']!r} was "
+                                f"answered as {seen!r}"))
+                    continue
             ok = False
             for req, resp in truths:
                 exp = b"" if resp.no_body else resp.body
